@@ -591,3 +591,83 @@ def pred_compare_names(*names: str):
         ids = {x.id for x in ast.walk(n) if isinstance(x, ast.Name)}
         return set(names) <= ids
     return p
+
+
+# ---------------------------------------------------------------------------
+# boolean normal form of guards; expansion of single-definition locals
+# ---------------------------------------------------------------------------
+
+def nnf_atoms(test: ast.AST, truth: bool) -> List[Tuple[ast.AST, bool]]:
+    """Atoms whose truth value is *known* when `test` evaluates to `truth`
+    (De Morgan pushed through not/and/or).  `a and b` true -> a, b true;
+    `a or b` false -> a, b false; `not x` flips.  A disjunction known true (or
+    a conjunction known false) yields itself as one opaque atom."""
+    if isinstance(test, ast.UnaryOp) and isinstance(test.op, ast.Not):
+        return nnf_atoms(test.operand, not truth)
+    if isinstance(test, ast.BoolOp):
+        conj = isinstance(test.op, ast.And)
+        if conj == truth:  # and-true / or-false: every operand is known
+            out: List[Tuple[ast.AST, bool]] = []
+            for v in test.values:
+                out += nnf_atoms(v, truth)
+            return out
+        return [(test, truth)]
+    # canonical polarity for negated comparison operators: `x is not y` true == `x is y` false, etc.
+    if isinstance(test, ast.Compare) and len(test.ops) == 1:
+        flip = {ast.IsNot: ast.Is, ast.NotEq: ast.Eq, ast.NotIn: ast.In}
+        for neg_op, pos_op in flip.items():
+            if isinstance(test.ops[0], neg_op):
+                pos = ast.Compare(left=test.left, ops=[pos_op()], comparators=test.comparators)
+                ast.copy_location(pos, test)
+                return [(pos, not truth)]
+    return [(test, truth)]
+
+
+class _Subst(ast.NodeTransformer):
+    def __init__(self, mapping):
+        self.mapping = mapping
+
+    def visit_Name(self, node):
+        if isinstance(node.ctx, ast.Load) and node.id in self.mapping:
+            return self.mapping[node.id]
+        return node
+
+
+def substitute(expr: ast.AST, mapping: Dict[str, ast.AST]) -> ast.AST:
+    import copy as _copy
+    return ast.fix_missing_locations(_Subst(mapping).visit(_copy.deepcopy(expr)))
+
+
+def atoms_equal(a: ast.AST, b: ast.AST) -> bool:
+    """Are two condition atoms the same fact?  Equal text; or the same symmetric comparison with operands
+    swapped (`a == b` / `b == a`, `x is None`); or equal canonical ordering comparisons (`a < b` / `b > a`,
+    integer forms `a <= b - 1`)."""
+    if text(a) == text(b):
+        return True
+    if isinstance(a, ast.Compare) and isinstance(b, ast.Compare) and len(a.ops) == 1 and len(b.ops) == 1:
+        if type(a.ops[0]) is type(b.ops[0]) and isinstance(a.ops[0], (ast.Eq, ast.Is)):
+            if text(a.left) == text(b.comparators[0]) and text(a.comparators[0]) == text(b.left):
+                return True
+        ca, cb = cmp_of(a), cmp_of(b)
+        if ca is not None and cb is not None and (ca == cb or ca.as_int() == cb.as_int()):
+            return True
+    return False
+
+
+def fact(src: str) -> Tuple[ast.AST, bool]:
+    """Parse a fact like 'start is not None' into its canonical (atom, truth) form."""
+    atoms = nnf_atoms(ast.parse(src, mode='eval').body, True)
+    if len(atoms) != 1:
+        raise ValueError(f'fact `{src}` is not a single atom')
+    return atoms[0]
+
+
+def has_fact(atoms, src: str, truth: bool = True) -> bool:
+    """`atoms`: iterable of (atom, truth, ...) tuples as produced by guard_atoms."""
+    fa, ft = fact(src)
+    want = ft if truth else (not ft)
+    for t in atoms:
+        a, tr = t[0], t[1]
+        if tr == want and atoms_equal(a, fa):
+            return True
+    return False
